@@ -35,9 +35,16 @@ Definition lget (k : bytes) (l : labels) : bytes :=
 Definition lab_eqb (a b : bytes * bytes) : bool := beq (fst a) (fst b) && beq (snd a) (snd b).
 Definition labels_eqb (a b : labels) : bool := list_eqb lab_eqb a b.
 
-(** Labels.Equal as written: same size, and every key of [l] maps in [b] to the
-    same value where a missing key reads as "" *)
+(** Labels.Equal as REPAIRED by hooks/fix_c19_labels_equal.diff: same size, and
+    every key of [l] is present in [b] with the same value. (As written in
+    golang/perf before the repair a missing key read as "", so that
+    {a:""} "equalled" {b:"y"}: C19_labels_equal_unrepaired_refuted.) *)
 Definition labels_equal_go (l b : labels) : bool :=
+  Nat.eqb (length l) (length b)
+  && forallb (fun kv => match lookup (fst kv) b with Some v => beq (snd kv) v | None => false end) l.
+
+(** the comparison as it stood before the repair, kept for the refutation *)
+Definition labels_equal_go_unrepaired (l b : labels) : bool :=
   Nat.eqb (length l) (length b) && forallb (fun kv => beq (snd kv) (lget (fst kv) b)) l.
 
 (** ** lines: bufio.Scanner with ScanLines (split at LF, drop one trailing CR;
